@@ -36,6 +36,17 @@ CHECKS = {
          "path's observation (including Debug/Display text built from the primitive formatter) bit-for-bit."),
    note="Trusted: TLC, token palette, the per-type access-path table (harness/src/acc.rs). Data independence assumed for values outside the palette.",
    ref="5 (C17)"),
+ "C13": dict(
+   technique="TLA+ model of Rust integer primitives on unbounded (limb) integers + range rule per family; TLC enumeration; replay in debug and release profiles",
+   text=("IntLane.tla defines every integer primitive as exact mathematics on arbitrary-precision integers (Big.tla, validated by TLC "
+         "against native arithmetic) followed by the family's range rule (panic/wrap by profile, None, wrap, saturate; /0 and MIN/-1 "
+         "panic always; shifts panic or mask). TLC checks checked/wrapping/saturating/plain coherence, the division identities, the "
+         "wrap homomorphism and De Morgan on every enumerated state, and emits per-lane outcomes for both profiles; each case is "
+         "replayed on the 2-, 3- and 4-lane type of the scalar (27 types) in 4 lane rotations, through every operator spelling and "
+         "shift-count type, with panics caught and compared. 8-bit operand pairs are exhaustive in the thorough tier."),
+   note=("Trusted: TLC, spec/Big.tla (checked by MC_Big and lane-by-lane against the Rust primitives: disagreement is a tool error), "
+         "harness/src/ivec.rs dispatch. 16-bit pairs are not exhaustive (boundary lattice). perp/perp_dot/rotate of 2-lane types not yet modelled."),
+   ref="5 (C13), 2.1"),
 }
 
 PENDING = {}
